@@ -70,4 +70,10 @@ CLAIMS = {
         note="Reference written from the Gateway API rules and the documented limitations (listener hostname overrides, only Gateway parents); only http requests are routed; v1beta1/v1alpha2 HTTPRoutes share the converter code and are not generated.",
         technique="property-based testing (rapid): differential against an independent reference evaluation of Gateway API admission",
     ),
+    "C06": dict(
+        text="Every generated conflict-rich cluster state is converted six times by fresh controller instances under permuted list orders, permuted event orders and repeated runs; any behavioural difference between two runs is a violation. Two order dependencies found were repaired in /repo, one (shared server-alias) is recorded.",
+        design_ref="DESIGN.md section 3, C06",
+        note="Detection of map-order dependence is probabilistic; the comparison is on the behavioural normal form so that textual differences without behaviour (priority map numbering) are not reported; Gateway routes are not part of the generated worlds.",
+        technique="property-based testing (rapid): metamorphic relation (permuted inputs / repeated runs must give the same normal form)",
+    ),
 }
